@@ -61,8 +61,8 @@ Definition all_esm (g : graph) : bool :=
   forallb (fun m => ekind_eqb (m_kind m) EESM
                     && forallb (fun r => ikind_eqb (r_kind r) KStmt) (m_records m)) (tl g).
 
-(* ---- the two shapes on which the linker and ECMA-262 disagree ---- *)
-(* (A) no file exports one binding under two names *)
+(* ---- shapes on which the linker and ECMA-262 disagree(d) ---- *)
+(* (A, repaired by a7bd0a8) no file exports one binding under two names *)
 Fixpoint nodupb (l : list nat) : bool :=
   match l with [] => true | x :: r => negb (memn x r) && nodupb r end.
 Definition single_alias (g : graph) : bool := forallb (fun m => nodupb (map snd (m_exports m))) g.
@@ -212,7 +212,7 @@ Fixpoint products (vs : list (list module)) : list (list module) :=
 Definition graph_ok (files : list nat) (names : list Z) (fs : list module) : bool :=
   let g := empty_module :: fs ++ [importer files names] in
   let s := S (length fs) in
-  negb (single_alias g && indirect_acyclic g) ||
+  negb (indirect_acyclic g) ||
   forallb (agrees g (seq 0 (length g)) s) (m_imports (getm g s)).
 
 (* domain 1: three files, one name; files 1 and 2 may star-export any subset of {1,2,3}
